@@ -56,7 +56,7 @@ def substitutions(block_stmts) -> List[dict]:
 
 def passes(ctx: Context, rule: str):
     """[(pass name, site, substitutions)] for every block that substitutes self.equations."""
-    fn = ctx.func(MODEL, "Model._simplify_once", rule)
+    fn = simplify_fn(ctx, rule)
     res = []
     for name, blk in option_blocks(fn).items():
         subs = substitutions(blk.body)
@@ -69,3 +69,73 @@ def passes(ctx: Context, rule: str):
     if len(res) < 5:
         raise AnalysisError(rule, "fewer than 5 substitution passes found in model.py")
     return res
+
+
+CATS = ("states", "der_states", "alg_states", "inputs", "parameters", "constants")
+
+
+def simplify_roles(fn) -> Dict[str, str]:
+    """local name -> canonical role name in Model._simplify_once, discovered from what each local is built from:
+    per-category name tables (`X = OrderedDict(<comprehension or zip over self.<cat>>)` -> <cat>), the merged name universe
+    (-> all_states), the protected set (-> do_not_eliminate), the rebuilt equation list (-> reduced_equations), the loop
+    variable over self.equations (-> eq), the snapshot of the alias relation (-> old_alias_relation) and the loop variables
+    over the relation (-> canonical, aliases, alias)."""
+    roles: Dict[str, str] = {}
+
+    def cat_of(value):
+        if isinstance(value, ast.Call) and (call_name(value) or "").split(".")[-1] in ("OrderedDict", "dict") and value.args:
+            a = value.args[0]
+            cats = set()
+            for x in ast.walk(a):
+                if isinstance(x, ast.Attribute) and isinstance(x.value, ast.Name) and x.value.id == "self" and x.attr in CATS:
+                    cats.add(x.attr)
+            if isinstance(a, (ast.ListComp, ast.GeneratorExp, ast.DictComp)) and len(cats) == 1:
+                return cats.pop()
+            if isinstance(a, ast.Call) and (call_name(a) or "") == "zip" and len(a.args) == 2:
+                v = a.args[1]
+                if isinstance(v, ast.Attribute) and isinstance(v.value, ast.Name) and v.value.id == "self" and v.attr in CATS:
+                    return v.attr
+            if len(cats) > 1:
+                return "all_states"
+        return None
+
+    for n in ast.walk(fn):
+        if isinstance(n, ast.Assign) and len(n.targets) == 1 and isinstance(n.targets[0], ast.Name):
+            t, v = n.targets[0].id, n.value
+            c = cat_of(v)
+            if c:
+                roles.setdefault(t, c)
+            elif isinstance(v, ast.Call) and norm(v) == "self.alias_relation.copy()":
+                roles.setdefault(t, "old_alias_relation")
+    tables = {k for k, v in roles.items() if v in CATS}
+    for n in ast.walk(fn):
+        if isinstance(n, ast.Call) and isinstance(n.func, ast.Attribute) and n.func.attr == "update" and isinstance(n.func.value, ast.Name) \
+                and n.args and isinstance(n.args[0], ast.Name) and n.args[0].id in tables:
+            roles.setdefault(n.func.value.id, "all_states")
+        if isinstance(n, ast.Assign) and len(n.targets) == 1 and isinstance(n.targets[0], ast.Name) and isinstance(n.value, ast.Call) \
+                and (call_name(n.value) or "") == "set" and sum(1 for x in ast.walk(n.value) if isinstance(x, ast.Name) and x.id in tables) >= 3:
+            roles.setdefault(n.targets[0].id, "do_not_eliminate")
+        if isinstance(n, ast.For) and norm(n.iter) == "self.equations" and isinstance(n.target, ast.Name):
+            roles.setdefault(n.target.id, "eq")
+            for c in ast.walk(n):
+                if isinstance(c, ast.Call) and isinstance(c.func, ast.Attribute) and c.func.attr == "append" and isinstance(c.func.value, ast.Name) \
+                        and c.args and isinstance(c.args[0], ast.Name) and c.args[0].id == n.target.id:
+                    roles.setdefault(c.func.value.id, "reduced_equations")
+        if isinstance(n, ast.For) and norm(n.iter) == "self.alias_relation" and isinstance(n.target, ast.Tuple) and len(n.target.elts) == 2 \
+                and all(isinstance(e, ast.Name) for e in n.target.elts):
+            roles.setdefault(n.target.elts[0].id, "canonical")
+            roles.setdefault(n.target.elts[1].id, "aliases")
+            for lp in ast.walk(n):
+                if isinstance(lp, ast.For) and isinstance(lp.iter, ast.Name) and lp.iter.id == n.target.elts[1].id and isinstance(lp.target, ast.Name):
+                    roles.setdefault(lp.target.id, "alias")
+    return {k: v for k, v in roles.items() if k != v}
+
+
+def simplify_fn(ctx: Context, rule: str):
+    """Model._simplify_once with its role-carrying locals renamed to canonical names (cached per context)"""
+    from ..pyutil import renamed_copy
+    key = "simplify_fn"
+    if key not in ctx.cache:
+        fn = ctx.func(MODEL, "Model._simplify_once", rule)
+        ctx.cache[key] = renamed_copy(fn, simplify_roles(fn))
+    return ctx.cache[key]
